@@ -150,7 +150,22 @@ func c09Gen(r *Rng, tier string, emit func(string)) {
 				one = genPFile(r, 1, 3)
 			}
 			bl := one.Blocks[0]
+			// keep one kind, chosen among the kinds the block has (an empty block now and then is wanted, not the rule)
+			var have []int
+			for _, g := range bl.Groups {
+				switch {
+				case g.Dense != nil && len(g.Dense.IDs) > 0:
+					have = append(have, 0)
+				case len(g.Ways) > 0:
+					have = append(have, 1)
+				case len(g.Rels) > 0:
+					have = append(have, 2)
+				}
+			}
 			kind := r.Intn(3)
+			if len(have) > 0 && r.Chance(85) {
+				kind = have[r.Intn(len(have))]
+			}
 			var gs []PGroup
 			for _, g := range bl.Groups {
 				if (kind == 0 && g.Dense != nil) || (kind == 1 && g.Ways != nil) || (kind == 2 && g.Rels != nil) {
